@@ -111,7 +111,26 @@ func c11One(c *Ctx, op, src string, cands []string, extra []string, local map[st
 		all = append(all, lits...)
 		for _, s := range all {
 			m := map[string]interface{}{"h": s}
+			// (an evaluation that memoised by a joined "pattern/value" text would
+			// confuse this pair with every other split of the same text: make
+			// those evaluations first)
+			if key := src + "/" + s; strings.Count(key, "/") > 1 && len(key) < 64 {
+				for j := 0; j < len(key); j++ {
+					if key[j] == '/' && j != len(src) {
+						if re2, err := regexp.Compile(key[:j]); err == nil {
+							influxql.EvalBool(&influxql.BinaryExpr{Op: influxql.EQREGEX, LHS: &influxql.VarRef{Val: "h"}, RHS: &influxql.RegexLiteral{Val: re2}}, map[string]interface{}{"h": key[j+1:]})
+						}
+					}
+				}
+			}
 			a, b := influxql.EvalBool(orig, m), influxql.EvalBool(after, m)
+			if want := re.MatchString(s) == (op == "=~"); a != want {
+				ss := s
+				viol = func() {
+					r.Violation("language-changed", det(fmt.Sprintf("value %q: the original condition evaluates to %v, Go's regexp matcher says %v", ss, a, want)))
+				}
+				return
+			}
 			if a != b {
 				known := ""
 				if strings.Contains(s, "\n") && strings.Contains(src, "(?m") {
@@ -337,6 +356,27 @@ func checkC11(c *Ctx) (string, bool, []string) {
 		"^[\\x{7e}-\\x{81}]$", "^srv[x-\\x{a1}]$", "^[\\x{7fd}-\\x{802}]x$", "^[\\x{fffe}-\\x{10001}]$", "^[a\\x{80}\\x{800}\\x{10000}]$", "^[\\x{7f}-\\x{9f}]{2}$",
 		// alternations whose branches stand for several strings each, around the 100-literal limit
 		"^(a[a-z]|b[a-z]|c[a-z]|d[a-z])$", "^(a[a-y]|b[a-y]|c[a-y]|d[a-y])$", "^(rack[0-8][0-9]|spare[0-9][0-9])$", "^([a-j][a-i]|[a-j])$", "^([a-j][a-i]|[a-k])$", "^(x|[a-j][a-j])$", "^([a-j][a-j]|x)$"}
+	// literals shaped like timestamps, judged also on other spellings of the
+	// same instant (to the regex they are different strings)
+	dateCands := []string{"2019-01-01", "2019-01-01T00:00:00Z", "2019-01-01 00:00:00", "2019-01-01T00:00:00+00:00", "2019-01-01T01:00:00+01:00", "2019-1-1", "2019-01-01T00:00:00.000Z", "1546300800000000000"}
+	for _, src := range []string{"^a/b$", "^a/b/c$", "^/$", "^a/(b|c)$"} {
+		for _, op := range []string{"=~", "!~"} {
+			local := map[string]int64{}
+			c11One(c, op, src, nil, []string{"a/b", "b$/a/b", "a", "/b", "a/b/c", "/", "a/c", "c$/a/b/c", "", "a/"}, local)
+			local["slash-sources"]++
+			r.DistinctStr(op + src)
+			r.MergeCounts(local)
+		}
+	}
+	for _, src := range []string{"^2019-01-01$", "^2019-01-01T00:00:00Z$", "^(2019-01-01|2019-01-02)$", "^2019-01-01 00:00:00$"} {
+		for _, op := range []string{"=~", "!~"} {
+			local := map[string]int64{}
+			c11One(c, op, src, nil, dateCands, local)
+			local["date-shaped-literals"]++
+			r.DistinctStr(op + src)
+			r.MergeCounts(local)
+		}
+	}
 	for _, src := range whole {
 		for _, op := range []string{"=~", "!~"} {
 			local := map[string]int64{}
